@@ -9,6 +9,8 @@ use crate::schema::Implementers;
 use crate::validation::diagnostics::DiagnosticData;
 use crate::validation::variable::walk_selections_with_deduped_fragments;
 use crate::validation::CycleError;
+use crate::validation::DepthCounter;
+use crate::validation::DepthGuard;
 use crate::validation::DiagnosticList;
 use crate::validation::OperationValidationContext;
 use crate::validation::RecursionGuard;
@@ -278,6 +280,7 @@ pub(crate) fn validate_fragment_cycles(
         selection_set: &'doc executable::SelectionSet,
         path_from_root: &mut RecursionGuard<'_>,
         seen: &mut HashSet<&'doc Name>,
+        mut depth: DepthGuard<'_>,
     ) -> Result<(), CycleError<executable::FragmentSpread>> {
         for selection in &selection_set.selections {
             match selection {
@@ -301,15 +304,28 @@ pub(crate) fn validate_fragment_cycles(
                             &fragment.selection_set,
                             &mut path_from_root.push(&fragment.name)?,
                             seen,
+                            depth.increment()?,
                         )
                         .map_err(|error| error.trace(spread))?;
                     }
                 }
                 executable::Selection::InlineFragment(inline) => {
-                    detect_fragment_cycles(document, &inline.selection_set, path_from_root, seen)?;
+                    detect_fragment_cycles(
+                        document,
+                        &inline.selection_set,
+                        path_from_root,
+                        seen,
+                        depth.increment()?,
+                    )?;
                 }
                 executable::Selection::Field(field) => {
-                    detect_fragment_cycles(document, &field.selection_set, path_from_root, seen)?;
+                    detect_fragment_cycles(
+                        document,
+                        &field.selection_set,
+                        path_from_root,
+                        seen,
+                        depth.increment()?,
+                    )?;
                 }
             }
         }
@@ -318,12 +334,16 @@ pub(crate) fn validate_fragment_cycles(
     }
 
     let mut visited = RecursionStack::with_root(def.name.clone()).with_limit(100);
+    // The fragment chain is bounded by `visited`, but every fragment on it can nest its spread
+    // in fields and inline fragments: bound the total call depth as well.
+    let mut depth = DepthCounter::new().with_limit(500);
 
     match detect_fragment_cycles(
         document,
         &def.selection_set,
         &mut visited.guard(),
         &mut HashSet::default(),
+        depth.guard(),
     ) {
         Ok(_) => {}
         Err(CycleError::Recursed(trace)) => {
